@@ -5,13 +5,13 @@ CLAIMED = {
              "no slot overlaps the flag word, and the market-level accessors use exactly those slots; (2) each of the four config flags is set/read in isolation and never "
              "changes a factor; (3) for every key, the market-model parameter it names (swap/position impact, fee, position, borrowing incl. kink model, funding, reserve, "
              "pnl-factor, pool/open-interest caps, deposit caps; long keys feed the long computation, short keys the short one; closed-market keys replace their open "
-             "counterparts exactly when the market is closed and the switch flag is set) reads that key, on the program Market and on the SDK MarketModel decoded from the same words; "
+             "counterparts exactly when the market is closed and the switch flag is set) reads that key on the program Market (the SDK MarketModel decoded from the same words is compared with the program under C40); "
              "(4) store amount/factor/address keys are read and written at one slot each, pairwise disjoint.",
         note="Trusted: kani-compiler + CBMC/CaDiCaL; the key -> model-parameter table in harness/store/src/c16_config_keys.rs (model_read) restates the documented meaning of each key. "
              "Write isolation is stated as slot identity/disjointness (addresses) rather than by writing through a symbolic pointer, which does not finish in CBMC for an 8 KB object "
              "(the value-level write/read-back variant runs on the config struct alone in the thorough tier). Market::get_config_by_key_mut is enumerated key by key (codes 0..128). "
              "The string-keyed entrypoints (strum FromStr) and the instruction layer are outside the claim.",
-        technique="Kani/CBMC symbolic execution of the real config accessors and model-trait impls over arbitrary account images (program and SDK side)",
+        technique="Kani/CBMC symbolic execution of the real config accessors and model-trait impls over arbitrary account images",
         design="C16"),
 }
 
@@ -67,4 +67,15 @@ CLAIMED.update({
              "(mint/burn deferral), which need Anchor account loaders. Pre-states are built field-wise through cfg(gmsol_verif) raw accessors: buffer revision, the copies under observation, clocks and other "
              "state arbitrary, untouched state zero. Trusted: kani-compiler + CBMC.",
         technique="Kani/CBMC one-step induction over the real revertible buffer of an in-memory market", design="C21"),
+})
+
+CLAIMED.update({
+    "C40": dict(
+        text=BOUNDED + "accessor level: the SDK Market layout has the program's size, and for an arbitrary market account image decoded by both sides from the same words, every configuration parameter "
+             "read through the model traits (every market config key: impact, fee, position, borrowing incl. kink model and the closed-market switch, funding, reserve, pnl factors, pool / open-interest caps), "
+             "the deposit caps, the skip-borrowing-fee and ignore-open-interest flags and the pure flag agree between gmsol_programs::model::MarketModel and the program's Market; the SDK Pool obeys the same "
+             "pure-pool accounting as the program Pool (C15 harnesses run on both types).",
+        note="NOT decided: pool-by-pool equality of the decoded pools, balances and clocks, whole-action simulation equality (both sides run the same generic gmsol-model code, see C02-C14), the SDK clock, "
+             "and the SDK order-fee-discount copy. Trusted: kani-compiler + CBMC; the key -> parameter table in harness/store/src/c16_config_keys.rs.",
+        technique="Kani/CBMC differential execution of the SDK and program model-trait impls over the same arbitrary account image", design="C40"),
 })
